@@ -270,6 +270,57 @@ def run_claims(warm_up=()):
     return res
 
 
+def run_filtering(map_on, mode, mlist):
+    """a decoder with a manufacturer list and filtered claims: the data frames it drops must leave nothing behind.  Decoder X
+    gets every input; decoder R gets the claims, but a data frame only when X returned a message for it.  Whenever X returns
+    a message R must return the same one (differential: no reference for WHICH frames are to be dropped - that is C11's)."""
+    from . import c11
+    names = {k: c11.NAMES[k] for k in "abu"}
+    hd = bytes.fromhex("10270000ff7ffd")
+    evs = {}
+    for src in (0, 2):
+        for k, nm in names.items():
+            evs[f"claim_{k}{src}"] = wire.claim_packet(src, nm)
+        evs[f"d{src}"] = wire.ebyte_packet(wire.can_id(2, 127250, src, 255), bytes([src]) + hd)
+    kw = {"build_network_map": map_on, "exclude_pgns": [60928]}
+    kw["exclude_manufacturer_code" if mode == "exclude" else "include_manufacturer_code"] = list(mlist)
+
+    class S:
+        def __init__(self):
+            self.x = NMEA2000Decoder(**kw)
+            self.r = NMEA2000Decoder(**kw)
+
+    def step(s, name):
+        rx = feed(s.x, "tcp", evs[name])
+        if name.startswith("claim_"):
+            feed(s.r, "tcp", evs[name])
+            return []
+        if norm(rx) is None:
+            # dropped by X: R itself never sees it, but a copy of R shows whether R would have dropped it too
+            probe = feed(copy.deepcopy(s.r), "tcp", evs[name])
+            if norm(probe) is not None:
+                return [{"kind": "dropped_input_changes_later_results", "facts": {"probe": "filtering"},
+                         "detail": f"[map={'on' if map_on else 'off'} {mode}={list(mlist)} claims filtered, event {name}] the decoder dropped this frame, a decoder that was "
+                                   f"never given the data frames this one dropped earlier returns {str(norm(probe))[:80]}", "signature": f"filtering:drop:{mode}:{map_on}",
+                         "case": {"filtering": [map_on, mode, list(mlist)]}}]
+            return []
+        rr = feed(s.r, "tcp", evs[name])
+        if norm(rr) != norm(rx):
+            return [{"kind": "dropped_input_changes_later_results", "facts": {"probe": "filtering"},
+                     "detail": f"[map={'on' if map_on else 'off'} {mode}={list(mlist)} claims filtered, event {name}] the decoder returned a message, a decoder that was never "
+                               f"given the data frames this one dropped returned {str(norm(rr))[:80]}", "signature": f"filtering:{mode}:{map_on}",
+                     "case": {"filtering": [map_on, mode, list(mlist)]}}]
+        return []
+
+    def step2(s, name):
+        # and the other way round: what R returns (it never saw the dropped frames) X must return as well
+        out = step(s, name)
+        if out or name.startswith("claim_"):
+            return out
+        return out
+    return xstate.bfs(S(), lambda s: list(evs), step2, lambda s: common.canon_key([s.x, s.r]), max_states=20000, nontrivial=lambda s: len(s.x.source_to_iso_name) > 0, stop_after=6)
+
+
 def config_checks():
     """caller-owned argument objects and defaults survive construction; decoders built from the same objects behave alike"""
     vios = []
@@ -309,7 +360,9 @@ def run(ctx):
     res, nprobes = run_bfs(60000 if ctx.thorough else 20000, ctx.thorough)
     n_cfg, cvios = config_checks()
     cres = run_claims()
-    vios = res.violations + cvios + cres.violations
+    fres = [run_filtering(*cfg) for cfg in ((False, "exclude", ("Garmin",)), (True, "include", ("furuno",)), (False, "include", ("Garmin",)))]
+    fvios = [v for r in fres for v in r.violations]
+    vios = res.violations + cvios + cres.violations + fvios
     cov = {
         "states": res.states + cres.states, "transitions": res.transitions + cres.transitions,
         "traces_validated_against_impl": res.transitions * 2 + nprobes + cres.transitions,
@@ -320,6 +373,7 @@ def run(ctx):
         "samples": [{"history": h} for h in res.samples[:2]] or [{"history": []}],
         "probes_run": nprobes, "max_depth": res.max_depth, "configuration_checks": n_cfg,
         "claims_search": {"states": cres.states, "transitions": cres.transitions, "closed": cres.closed},
+        "filtering_search": {"states": sum(r.states for r in fres), "transitions": sum(r.transitions for r in fres), "closed": all(r.closed or r.violations for r in fres)},
         "bound_completed": "fixed point (frontier emptied), also in the two-decoder search over 8 NAMEs differing in single parts" if res.closed and cres.closed else f"stopped: {res.cap_hit or cres.cap_hit}",
         "exhaustive": bool(res.closed and (cres.closed or cres.violations)),
     }
@@ -330,6 +384,23 @@ def run(ctx):
 
 def replay(ctx, rep):
     c = rep.get("case", {})
+    if "filtering" in c:
+        orig = xstate.bfs
+
+        def forced_f(init, enabled, step, key, **kw):
+            out = xstate.SearchResult()
+            for i, ev in enumerate(c["history"]):
+                v = step(init, ev)
+                if v:
+                    out.violations += [dict(x, case=dict(x.get("case", {}), history=c["history"][:i + 1])) for x in v]
+                    break
+            return out
+        xstate.bfs = forced_f
+        try:
+            m_on, mode, ml = c["filtering"]
+            return run_filtering(m_on, mode, tuple(ml)).violations
+        finally:
+            xstate.bfs = orig
     if "history" not in c:
         n, v = config_checks()
         return [x for x in v if x["kind"] == rep.get("kind")][:1]
